@@ -75,6 +75,11 @@ def run(ctx):
             ctx.error('C20.D1', 'Qty.%s: body not in a recognised normal form (%s)' % (name, e))
             return
         matched += 1
+        if getattr(ev, 'inverted_unwrap', None) is not None:
+            _v(ctx, 'C20.D1', fn, 'Quantity(7, "m") %s 2 raises AttributeError (`.value` of a plain number), and Quantity(7, "m") %s '
+               'Quantity(2, "m") hands a Quantity object to the value\'s operator: the unwrapping is done for operands that are '
+               'NOT quantities' % (name, name), 'Qty.%s unwraps under `%s`' % (name, norm(ev.inverted_unwrap.test)))
+            return
         if ev.bad_unwrap is not None:
             _v(ctx, 'C20.D1', fn, 'operand of a Quantity class other than %s is not unwrapped' % ev.bad_unwrap[1],
                'Qty.%s unwraps only instances of %s, not of Qty' % (name, ev.bad_unwrap[1]))
